@@ -103,6 +103,7 @@ pub fn run(tier: Tier, seed: u64) -> i32 {
             note: format!("values={vname} wiring={wname}"),
         };
         ev.set_insert("pair_counts", format!("{}:{p}", if xor { "xor" } else { "and" }));
+        let case = if (k + ci / 128 + p as u64) % 3 == 1 { super::gadget::in_context(case, &mut rng, false, &ev) } else { case };
         let Some(h) = lab.honest(&case) else { return };
         if p == 0 {
             return;
@@ -120,6 +121,12 @@ pub fn run(tier: Tier, seed: u64) -> i32 {
             lab.adversary(&case, &h, &format!("claim-output:{n}"), &f);
         }
         // (b) decouple the left input: rows consistent with another integer A'
+        if h.own.len() < 4 * p + 2 {
+            // not the layout the adversaries below are written for; the honest
+            // run above has already judged the component
+            ev.bucket("unexpected-layout.adversaries-skipped");
+            return;
+        }
         let helpers = (h.own.len() - 4 * p) / 2;
         let high_a = h.own.start + 4 * p;
         let high_b = high_a + helpers;
@@ -188,5 +195,6 @@ pub fn run(tier: Tier, seed: u64) -> i32 {
     ev.floor("end-to-end confirmations", ev.bucket_get("end_to_end"), tier.pick(40, 700));
     ev.floor("near-miss assignments (one sub-identity on one row) refused by the real prover", ev.bucket_get("near_miss.end_to_end"), 60);
     ev.floor("sub-identities covered by near misses", ev.set_len("near_miss_identities") as u64, 6);
+    ev.floor("cases run in a context of earlier calls on the operands", ev.bucket_get("context.cases"), 100);
     ev.finish()
 }
